@@ -31,13 +31,25 @@ def gen_shared(rng):
   insts = [{'kind': 'leaf', 'w': rng.randint(1, 3)} for _ in range(rng.randint(1, 3))]
   for _ in range(rng.randint(0, 3)):
     insts.append({'kind': 'wrap', 'inner': rng.randrange(len(insts)), 'w': rng.randint(0, 2)})
+  if rng.random() < 0.5:
+    # a node with two children: one instance can then be reached twice inside one field's own subtree, at depth >= 2
+    for _ in range(rng.randint(1, 2)):
+      i1 = rng.randrange(len(insts))
+      i2 = i1 if rng.random() < 0.3 else rng.randrange(len(insts))
+      if rng.random() < 0.5:
+        insts.append({'kind': 'wrap', 'inner': i1, 'w': rng.randint(0, 2)})
+        insts.append({'kind': 'wrap', 'inner': i2 if i2 != i1 or rng.random() < 0.5 else i1, 'w': rng.randint(0, 2)})
+        i1, i2 = len(insts) - 2, len(insts) - 1
+      insts.append({'kind': 'pair', 'inner': i1, 'inner2': i2, 'w': rng.randint(0, 2)})
   names = ['a', 'b', 'c', 'd'][:rng.randint(2, 4)]
   fields = {f: rng.randrange(len(insts)) for f in names}
+  if insts[-1]['kind'] == 'pair' and rng.random() < 0.7:
+    fields[rng.choice(names)] = len(insts) - 1
   if rng.random() < 0.6:
     # make sure something is shared: two fields reach the same leaf, directly or through wrappers
     f1, f2 = rng.sample(names, 2)
     tgt = fields[f1]
-    while insts[tgt]['kind'] == 'wrap' and rng.random() < 0.7:
+    while insts[tgt]['kind'] != 'leaf' and rng.random() < 0.7:
       tgt = insts[tgt]['inner']
     if rng.random() < 0.5:
       insts.append({'kind': 'wrap', 'inner': tgt, 'w': rng.randint(0, 2)})
@@ -48,7 +60,7 @@ def gen_shared(rng):
 
   def chain(i):
     out = [i]
-    while insts[out[-1]]['kind'] == 'wrap':
+    while insts[out[-1]]['kind'] != 'leaf':
       out.append(insts[out[-1]]['inner'])
     return out
   pairs = []
@@ -73,6 +85,8 @@ def shared_reference(c, rounds):
     if d['kind'] == 'leaf':
       return x * d['w'] + counts[i]
     n = counts[i]
+    if d['kind'] == 'pair':
+      return call(d['inner2'], call(d['inner'], x)) + d['w'] + n
     return call(d['inner'], x) * 2 + d['w'] + n
   snaps = []
   for _ in range(rounds):
@@ -118,6 +132,25 @@ def run_shared(chk):
       what = 'init and apply disagree on the variable paths'
     elif not all(r['same']):
       what = 'bind() gives two different objects for one submodule instance reachable from two attributes'
+    elif 'err' in r['unbind']:
+      what = 'bind(variables).unbind() hands back a module that cannot be initialised or applied to the variables it returns: %s %s' % (r['unbind']['err'], r['unbind'].get('msg'))
+    elif not r['unbind']['vars_same']:
+      what = 'unbind() returns other variables than the module was bound to'
+    elif (r['unbind']['y_init'], sorted(r['unbind']['counts']), sorted(r['unbind']['params'])) != (r['y_init'], sorted(r['counts']), sorted(r['params'])):
+      what = 'init of the module handed back by bind().unbind() differs from init of the original (output, or the variable tree: sharing by reference was not kept)'
+    elif (r['unbind']['y_apply'], sorted(r['unbind']['counts_apply'])) != (r['y_apply'], sorted(r['counts_apply'])):
+      what = 'apply of the module handed back by bind().unbind() on the returned variables differs from apply of the original'
+    else:
+      def reach(i):
+        d = c['insts'][i]
+        return {i} | (reach(d['inner']) if d['kind'] != 'leaf' else set()) | (reach(d['inner2']) if d['kind'] == 'pair' else set())
+      for f, sr in r['unbind_sub'].items():
+        if c['fields'][f] not in {c['fields'][g] for g in c['calls']} or any(c['fields'][g] != c['fields'][f] and reach(c['fields'][g]) & reach(c['fields'][f]) for g in c['fields']):
+          continue      # never called (no variables), or an instance it uses is shared with another field: its variables may live outside this field's own subtree
+        if 'err' in sr:
+          what = 'a submodule taken out of a bound tree with unbind() cannot be applied to / initialised like the subtree it returns (%s): %s %s' % (f, sr['err'], sr.get('msg'))
+        elif sr['paths_bound'] != sr['paths_fresh']:
+          what = 'a submodule taken out of a bound tree with unbind() initialises another variable tree than the subtree unbind() returned (%s)' % f
     if what:
       chk.violation('oracle', what, {'case': c, 'observed': r, 'reference_outputs': ys, 'reference_counts': snaps})
   chk.notes['shared_attribute_modules'] = {'cases': len(cases), 'with_sharing': nshared}
@@ -173,6 +206,9 @@ def run(chk):
     if r['apply_immutable_param_inits'] or r['apply_like_init_param_inits']:
       chk.violation('oracle', 'apply called a parameter initialiser although the parameter was supplied', {'case': c})
     al = r['apply_like_init']
+    if 'err' in al and al['err'] in ('EParamShape', 'EParamNotFound', 'ECollectionNotFound'):
+      chk.violation('oracle', 'init succeeded, but apply on exactly the variables it returned (same inputs, same mutable collections) raised %s: a parameter init accepted is missing or '
+                    'wrongly shaped for apply' % al['err'], {'case': c, 'init': r['init']})
     if 'err' not in al and al['vars'] is not None:
       if paths(al['vars']) != paths(vars_init):
         chk.violation('oracle', 'apply created, dropped or renamed a variable compared with what init returned', {'case': c, 'init_paths': paths(vars_init), 'apply_paths': paths(al['vars'])})
